@@ -27,16 +27,6 @@ def any_error(c):
 
 
 # ================================================================================================ summaries used by the API contracts
-@REG.contract("dpapi_ng._rpc._client.create_rpc_connection", props=[], assumed=True, note="A-NET: opens a TCP connection; with auth_protocol builds the spnego provider for (username, password, server)")
-def create_rpc_connection(c):
-    return _connect(c, "sync")
-
-
-@REG.contract("dpapi_ng._rpc._client.async_create_rpc_connection", props=[], assumed=True, note="A-NET: opens a TCP connection; with auth_protocol builds the spnego provider")
-def async_create_rpc_connection(c):
-    return _connect(c, "async")
-
-
 def _connect(c, flavour):
     from .c_rpcclient import provider_kind
 
